@@ -195,6 +195,20 @@ CHECKS = {
         "compared with a fresh twin estimator (metamorphic); add=True with a matrix K is not modelled (the harness avoids it); "
         "fit() with internal targets is exercised in C04, not here; aliasing is a runtime effect checked by hashing.",
         "5/C14"),
+    "C07": (
+        "Lean 4 proof (convexity/tangent bound of the Poisson objective over the reals; excitation identity and level infeasibility from LP multipliers) + exact per-answer certificates",
+        "Theorems in lean/Dreye/Props/C07.lean prove: the code's quasi-convex term |b-p|/((1+b)(1+p)) equals |e(b)-e(p)| for "
+        "e(q)=q/(1+q); 'excitation error <= t' is the pair of linear inequalities the model builds; accepted multipliers with a "
+        "positive value show that NO in-bound intensity vector reaches level t; over the reals the Poisson objective lies above "
+        "its tangent, hence obj(x) <= obj(y) + (g.x - min_box g.z) for EVERY in-bound y with the logarithm-free gradient g, and "
+        "the objective is minimal at prediction = target (Gibbs). Every run evaluates, exactly in Q at dreye's answers, the Poisson "
+        "gap and the documented excitation objective, certifies level (objective - 2e-3) unreachable with LP multipliers through "
+        "the verified checker, and checks bounds, prediction = model capture, and that gaussian / Poisson / excitation all "
+        "reproduce in-gamut targets - after a call with another adaptation state on the same system.",
+        "Trusted: Lean kernel; cvxpy/solvers (CLARABEL, SCS bisection) are engines, certificate-checked per row; HiGHS supplies "
+        "untrusted multipliers; weights are exercised for Poisson only (the excitation objective's weight semantics are not "
+        "stated by the property: W=None); tolerances: Poisson gap <= 2e-2 x scale, excitation level within 2e-3.",
+        "5/C07"),
 }
 
 NOT_YET = "check not built yet in this round of work (planned in DESIGN.md section 5); no claim is made"
